@@ -321,6 +321,7 @@ func cmdCheck(args []string) int {
 				cfg.Validate = tc.Validate
 			}
 			cfg.SchedChoice = tc.SchedChoice
+			cfg.StopAfterViolation = 45 * time.Second
 			ex := &interp.Explorer{P: p, Cfg: cfg}
 			rep := ex.Explore(fn)
 			all = append(all, entryOut{e.Name, rep, tc})
@@ -344,7 +345,9 @@ func cmdCheck(args []string) int {
 			for _, w := range rep.Unwound {
 				otherLines = append(otherLines, fmt.Sprintf("INCONCLUSIVE(unwound) property=%s entry=%s %s", prop, e.Name, firstLine(w)))
 			}
-			if rep.Truncated {
+			if rep.StoppedEarly {
+				otherLines = append(otherLines, fmt.Sprintf("NOTE property=%s entry=%s exploration stopped %v after the first violating model (verdict already decided)", prop, e.Name, cfg.StopAfterViolation))
+			} else if rep.Truncated {
 				otherLines = append(otherLines, fmt.Sprintf("INCONCLUSIVE(truncated) property=%s entry=%s path limit %d reached", prop, e.Name, cfg.MaxPaths))
 			}
 			for _, l := range rep.UnknownObl {
@@ -578,6 +581,9 @@ func firstLine(s string) string {
 func round3(f float64) float64 { return float64(int64(f*1000+0.5)) / 1000 }
 
 func doReplay(spec *Spec, path string) int {
+	if abs, err := filepath.Abs(path); err == nil {
+		path = abs
+	}
 	b, err := os.ReadFile(path)
 	if err != nil {
 		fmt.Fprintln(os.Stderr, err)
